@@ -26,6 +26,63 @@ def calibrate(ctx, lib, progs, full=False):
     return pj, [len(p) for p in prog], out
 
 
+def run_combo(ctx, lib, combo, tc, tc_shared, rng, tot, tagp="c18-"):
+    """one combination of thread programs: calibration, deadlock freedom of the lock programs, schedules, replay"""
+    progs, maxpre, cap, full = combo[:4]
+    tmod, tcc = ("Trace_ConcTok", tc_shared) if len(combo) > 4 else ("Trace_Conc", tc)
+    n = progs.count(",") + 1
+    pj, lens, calout = calibrate(ctx, lib, progs, full)
+    tot["lock_points"][progs + ("/full" if full else "")] = lens
+    cmode = "controlled-full" if full else "controlled"
+    tag = progs.replace(",", "") + ("f%d" % maxpre if full else "") + ("p%d" % maxpre if len(combo) > 4 and not full else "")
+    env = {"PROG": pj}
+    # (a) no interleaving of the recorded lock programs deadlocks (unbounded preemption)
+    res, _ = pipeline.model_check(ctx, "Conc", "dl-" + tag, dict(NThreads=str(n), MaxPre="9999"),
+                                  invariants=["TypeOK", "MutualExclusion", "NoDeadlock"], view="View", env=env,
+                                  timeout=1500)
+    tot["states"] += res.distinct
+    tot["transitions"] += res.generated
+    # (b) every schedule with at most maxpre preemptions (all of them, or `cap` drawn uniformly)
+    res, g = pipeline.model_check(ctx, "Conc", "sch-" + tag, dict(NThreads=str(n), MaxPre=str(maxpre)),
+                                  invariants=["TypeOK", "MutualExclusion"], view=None, dump=True, env=env, timeout=1500)
+    tot["states"] += res.distinct
+    tot["transitions"] += res.generated
+    ps, total = walker.paths(g, cap, rng)
+    tot["schedules"] += len(ps)
+    tot["paths_total"] += total
+    if len(combo) > 4 and n == 2:
+        # The calls of these programs take different paths through the library depending on what the other thread
+        # has done (a login that finds the user logged in returns early), so a schedule counted in points of the
+        # CALIBRATED programs drifts.  In addition, every two-preemption schedule counted in points of the execution
+        # itself: a runs i points, b runs j points, a runs on, b runs on - for all i, j and both orders.
+        direct = [["Run(%d)" % a] * i + ["Run(%d)" % b] * j + ["RunOn(%d)" % a, "RunOn(%d)" % b] * 2
+                  for a, b in ((1, 2), (2, 1)) for i in range(1, lens[a - 1] + 4) for j in range(1, lens[b - 1] + 4)]
+        if len(direct) > cap:
+            direct = rng.sample(direct, cap)
+        tot["paths_total"] += (lens[0] + 3) * (lens[1] + 3) * 2
+        tot["schedules"] += len(direct)
+        ps = ps + direct
+    st = pipeline.replay_validate(ctx, tagp + tag, "vf.drv_conc", [lib, cmode, progs], ps,
+                                  tmod, tcc, jobs=15, max_rej_per_chunk=1, max_confirm=3)
+    pipeline.report_rejections(ctx, tagp + tag, st, "vf.drv_conc", [lib, cmode, progs])
+    for k in ("executions", "accepted", "events"):
+        tot[k] += getattr(st, k)
+    for d in st.devlog:
+        d["tmod"], d["tc"] = tmod, tcc
+    tot["devlog"] += st.devlog
+    if st.samples and len(tot.setdefault("samples", [])) < 2:
+        tot["samples"].append(st.samples[0][:8])
+    for k2, v2 in st.okcount.items():
+        c2 = tot["calls"].setdefault(k2, [0, 0])
+        c2[0] += v2[0]
+        c2[1] += v2[1]
+
+
+def new_tot():
+    return dict(states=0, transitions=0, schedules=0, paths_total=0, executions=0, accepted=0, events=0, devlog=[],
+                lock_points={}, calls={})
+
+
 def c18(ctx):
     lib = build.libpath(build.build("ossl"))
     quick = ctx.tier == "quick"
@@ -54,56 +111,9 @@ def c18(ctx):
     tot = dict(states=0, transitions=0, schedules=0, paths_total=0, executions=0, accepted=0, events=0, devlog=[], lock_points={},
                calls={})
     for combo in combos:
-        progs, maxpre, cap, full = combo[:4]
-        tmod, tcc = ("Trace_ConcTok", tc_shared) if len(combo) > 4 else ("Trace_Conc", tc)
         if ctx.violations:
             break
-        n = progs.count(",") + 1
-        pj, lens, calout = calibrate(ctx, lib, progs, full)
-        tot["lock_points"][progs + ("/full" if full else "")] = lens
-        cmode = "controlled-full" if full else "controlled"
-        tag = progs.replace(",", "") + ("f%d" % maxpre if full else "") + ("p%d" % maxpre if len(combo) > 4 and not full else "")
-        env = {"PROG": pj}
-        # (a) no interleaving of the recorded lock programs deadlocks (unbounded preemption)
-        res, _ = pipeline.model_check(ctx, "Conc", "dl-" + tag, dict(NThreads=str(n), MaxPre="9999"),
-                                      invariants=["TypeOK", "MutualExclusion", "NoDeadlock"], view="View", env=env,
-                                      timeout=1500)
-        tot["states"] += res.distinct
-        tot["transitions"] += res.generated
-        # (b) every schedule with at most maxpre preemptions (all of them, or `cap` drawn uniformly)
-        res, g = pipeline.model_check(ctx, "Conc", "sch-" + tag, dict(NThreads=str(n), MaxPre=str(maxpre)),
-                                      invariants=["TypeOK", "MutualExclusion"], view=None, dump=True, env=env, timeout=1500)
-        tot["states"] += res.distinct
-        tot["transitions"] += res.generated
-        ps, total = walker.paths(g, cap, rng)
-        tot["schedules"] += len(ps)
-        tot["paths_total"] += total
-        if len(combo) > 4 and n == 2:
-            # The calls of these programs take different paths through the library depending on what the other thread
-            # has done (a login that finds the user logged in returns early), so a schedule counted in points of the
-            # CALIBRATED programs drifts.  In addition, every two-preemption schedule counted in points of the execution
-            # itself: a runs i points, b runs j points, a runs on, b runs on - for all i, j and both orders.
-            direct = [["Run(%d)" % a] * i + ["Run(%d)" % b] * j + ["RunOn(%d)" % a, "RunOn(%d)" % b] * 2
-                      for a, b in ((1, 2), (2, 1)) for i in range(1, lens[a - 1] + 4) for j in range(1, lens[b - 1] + 4)]
-            if len(direct) > cap:
-                direct = rng.sample(direct, cap)
-            tot["paths_total"] += (lens[0] + 3) * (lens[1] + 3) * 2
-            tot["schedules"] += len(direct)
-            ps = ps + direct
-        st = pipeline.replay_validate(ctx, "c18-" + tag, "vf.drv_conc", [lib, cmode, progs], ps,
-                                      tmod, tcc, jobs=15, max_rej_per_chunk=1, max_confirm=3)
-        pipeline.report_rejections(ctx, "c18-" + tag, st, "vf.drv_conc", [lib, cmode, progs])
-        for k in ("executions", "accepted", "events"):
-            tot[k] += getattr(st, k)
-        for d in st.devlog:
-            d["tmod"], d["tc"] = tmod, tcc
-        tot["devlog"] += st.devlog
-        if st.samples and len(tot.setdefault("samples", [])) < 2:
-            tot["samples"].append(st.samples[0][:8])
-        for k2, v2 in st.okcount.items():
-            c2 = tot["calls"].setdefault(k2, [0, 0])
-            c2[0] += v2[0]
-            c2[1] += v2[1]
+        run_combo(ctx, lib, combo, tc, tc_shared, rng, tot)
     # (c) free-running threads with OS locking (stress): 8 and 16 threads
     free = dict(executions=0, accepted=0, events=0)
     for fi, (progs, rounds) in enumerate([] if only else [("a,b,d,a,b,d,a,b", 300), ("A,B,C,D,E,A,B,C,D,E,A,B,C,D,E,A", 150)] if quick else
